@@ -33,6 +33,7 @@ enum Op : int {
     OP_FRAME_DUP,      // i0 source frame (mod), i1 index mode, i2 raw : hand one of the object's OWN stored frames back to frame() (duplicate it)
     OP_PARAM_EDIT,     // i0 group (mod), i1 parameter (mod), i2 edit kind, i3 target selector ; s0 new description, s1 new group name : copy a parameter OUT of the object, edit it through its setters, hand it back (kind 3: hand the object's own parameter, by reference, to another or a new group)
     OP_LOOKUP,         // i0 seed : by-name getters (point, channel, group, parameter and their Idx forms) on names the object holds and on one it does not
+    OP_ADOPT,          // i0 seed : C18 only - take frames out of ANOTHER object (the donor every thread of the case reads) and hand them, by reference, to frame(); on an empty undeclared object first declare the donor's names and append all its frames
     OP_NOPS
 };
 const char *op_name(int op);
